@@ -40,7 +40,7 @@ theorem nameLoop_label (pre : Bytes) (l : UInt8) (lab rest : Bytes) (newOff ptr 
   have h2 : ¬ pre.length + 1 + l.toNat > (pre ++ l :: (lab ++ rest)).length := by
     simp only [List.length_append, List.length_cons]; omega
   have h3 : ¬ name.length + 1 + l.toNat + 1 > nameCap := by
-    simp only [nameCap, Facts.name_lenLimit]; omega
+    simp only [nameCap]; omega
   have h4 : ((pre ++ l :: (lab ++ rest)).drop (pre.length + 1)).take l.toNat = lab := by
     have : (pre ++ l :: (lab ++ rest)).drop (pre.length + 1) = lab ++ rest := by
       rw [List.drop_append]; simp
@@ -64,7 +64,7 @@ theorem nameLoop_ptr (pre : Bytes) (hi lo : UInt8) (post : Bytes) (newOff ptr : 
     rw [List.getElem_append_right (by omega)]; simp
   simp only [hb]
   have h1 : ¬ hi.toNat < 64 := by omega
-  have h3 : ¬ ptr + 1 > hopLimit := by simp only [hopLimit, Facts.name_hopLimit]; omega
+  have h3 : ¬ ptr + 1 > hopLimit := by simp only [hopLimit]; omega
   simp only [h1, hhi, if_true, if_false, dif_neg hlt2, hb2, h3]
 
 /-! ### a run of labels -/
@@ -176,7 +176,7 @@ theorem nameLoop_wf (msg : Bytes) (currOff newOff ptr : Nat) (name : Bytes) :
   case case5 => intros; simp_all
   case case6 currOff newOff ptr name h c currOff1 hlt hz endOff hend hcap ih =>
     intro hL hl
-    simp only [nameCap, Facts.name_lenLimit] at hcap
+    simp only [nameCap] at hcap
     have hc256 : c < 256 := by omega
     apply ih
     · rw [List.append_assoc]
